@@ -195,6 +195,8 @@ struct Result {
 };
 
 // run the library call: fault budget armed, global allocations counted, exceptions classified
+static long clampL(unsigned long long x) { return x > 2000000000ULL ? 2000000000L : static_cast<long>(x); }
+
 template <class F>
 static void guarded(const Label &lb, Result &r, F &&f) {
   R.gm = 0;
@@ -346,6 +348,10 @@ static void run1(Slot<T> &s, const Label &lb, Result &r) {
     bool ok = true;
     guarded(lb, r, [&] { ok = withIlist(lb.vs, [&](std::initializer_list<E> il) { v.assign(il); }); });
     if (!ok) r.unsupported();
+  } else if (op == "assignOpIlist") {
+    bool ok = true;
+    guarded(lb, r, [&] { ok = withIlist(lb.vs, [&](std::initializer_list<E> il) { v = il; }); });
+    if (!ok) r.unsupported();
   } else if (op == "assignN") {
     prepArg();
     guarded(lb, r, [&] { v.assign(static_cast<SZ>(lb.n), *arg); });
@@ -475,6 +481,29 @@ static void run1(Slot<T> &s, const Label &lb, Result &r) {
 #else
     r.unsupported();
 #endif
+  } else if (op == "eraseIf") {
+#if __cplusplus >= 202002L
+    guarded(lb, r, [&] { r.val(static_cast<long>(erase_if(v, [&](const E &e) { return e.v % 2 == lb.n; }))); });
+#else
+    r.unsupported();
+#endif
+  } else if (op == "setIndex") {
+    guarded(lb, r, [&] { v[static_cast<SZ>(lb.n)].v = lb.v; });
+  } else if (op == "setAt") {
+    guarded(lb, r, [&] { v.at(static_cast<SZ>(lb.n)).v = lb.v; });
+  } else if (op == "setFront") {
+    guarded(lb, r, [&] { v.front().v = lb.v; });
+  } else if (op == "setBack") {
+    guarded(lb, r, [&] { v.back().v = lb.v; });
+  } else if (op == "setData") {
+    guarded(lb, r, [&] { v.data()[lb.n].v = lb.v; });
+  } else if (op == "setIter") {
+    guarded(lb, r, [&] { (v.begin() + lb.n)->v = lb.v; });
+  } else if (op == "setRIter") {
+    guarded(lb, r, [&] { (v.rbegin() + (static_cast<long>(v.size()) - 1 - lb.n))->v = lb.v; });
+  } else if (op == "maxSize") {
+    const T &cv = v;
+    guarded(lb, r, [&] { r.val(clampL(cv.max_size())); });
   } else if (op == "at") {
     const T &cv = v;
     guarded(lb, r, [&] { r.val(cv.at(static_cast<SZ>(lb.n)).v); });
@@ -543,6 +572,12 @@ static void run2(Slot<T> &a, Slot<U> &b, const Label &lb, Result &r) {
       guarded(lb, r, [&] { *a.p = std::move(*b.p); });
     } else if (op == "swap") {
       guarded(lb, r, [&] { a.p->swap(*b.p); });
+    } else if (op == "freeSwap") {
+      if constexpr (Traits<T>::amc) {
+        guarded(lb, r, [&] { amc::swap(*a.p, *b.p); });
+      } else {
+        guarded(lb, r, [&] { std::swap(*a.p, *b.p); });
+      }
     } else if (op == "eq") {
       guarded(lb, r, [&] { r.boolean(static_cast<const T &>(*a.p) == static_cast<const T &>(*b.p)); });
     } else if (op == "ne") {
@@ -565,7 +600,6 @@ static void run2(Slot<T> &a, Slot<U> &b, const Label &lb, Result &r) {
 
 // ---------------------------------------------------------------------------------------------------------------
 // observation
-static long clampL(unsigned long long x) { return x > 2000000000ULL ? 2000000000L : static_cast<long>(x); }
 
 template <class T>
 static void observe(Slot<T> &s, std::string &out) {
@@ -602,15 +636,31 @@ static void observeAll(std::string &out, std::index_sequence<I...>) {
 }
 
 extern long g_h0, g_h1;
+template <size_t... I>
+static void healAll(std::index_sequence<I...>) {
+  auto heal = [](auto &s) {
+    if (!s.ex()) return;
+    const auto &v = *s.p;
+    for (size_t i = 0, n = static_cast<size_t>(v.size()); i < n; ++i) v.data()[i].heal_();
+  };
+  (heal(std::get<I>(g_slots)), ...);
+}
+
 static void emit(const Label &lb, const Result &r) {
   Internal g;
   std::string line = "{\"e\":\"op\",\"lbl\":" + lb.json() + ",\"ret\":" + r.json() + ",\"obs\":[";
   observeAll(line, std::make_index_sequence<static_cast<size_t>(K)>());
   line += "],\"prims\":[" + R.prims + "],\"allocs\":[" + R.allocs + "],\"gm\":" + std::to_string(R.gm) +
-          ",\"te\":" + std::to_string(R.throwEvents) + ",\"h0\":" + std::to_string(g_h0) + ",\"h1\":" + std::to_string(g_h1) + "}";
+          ",\"te\":" + std::to_string(R.throwEvents) + ",\"tm\":" + (R.thrownByMove ? "true" : "false") + ",\"h0\":" + std::to_string(g_h0) + ",\"h1\":" + std::to_string(g_h1) + "}";
   R.prims.clear();
   R.allocs.clear();
   OUT.line(line);
+  if (R.thrownByMove) {
+    // a move operation that throws inevitably leaves moved-from elements behind (reported on this line, where the
+    // specification waives them): they are not reported again on the following lines
+    healAll(std::make_index_sequence<static_cast<size_t>(K)>());
+    R.thrownByMove = false;
+  }
 }
 
 static bool exists(int c) {
@@ -623,7 +673,7 @@ static bool g_lastInjected = false;
 long g_h0 = 0, g_h1 = 0;
 
 static bool isConstOp(const std::string &op) {
-  return op == "at" || op == "index" || op == "front" || op == "back" || op == "iterate" || op == "eq" || op == "ne" || op == "lt" ||
+  return op == "at" || op == "index" || op == "front" || op == "back" || op == "iterate" || op == "maxSize" || op == "eq" || op == "ne" || op == "lt" ||
          op == "le" || op == "gt" || op == "ge" || op == "ctorCopy" || op == "assignCopy";
 }
 // hash of the representation of the container(s) a const operation reads: the object bytes and its element buffer
